@@ -136,3 +136,34 @@ Example C03_premises_satisfiable :
   (exists a, sat a (encode_kfd (exI 2))) /\ (~ exists a, sat a (encode_kfd (exI 1))).
 Proof. exact (conj ex_wf (conj ex_decomposition (conj ex_no_decomposition_1 (conj ex_lp_feasible_2 ex_lp_infeasible_1)))). Qed.
 Print Assumptions C03_premises_satisfiable.
+
+(* (9) END TO END, from hypotheses about the caller's input only (EndToEnd1-3.v): for every DAG -- given with a topological order and
+   adjacency lists that the verified checker Peel.peel_inputs_ok accepts -- and every non-negative conserving integer flow, the search
+   of MinFlowDecomp over k = lb .. |E| (solver deciding each generated model exactly, lb a valid lower bound) returns kopt = the least
+   number of weighted source-to-sink paths explaining the flow, and kopt <= number of positive edges.  Derived inside the proof, not
+   assumed: the s-t graph of the augmentation is well formed, a rank function exists, a decomposition exists (greedy peeling), the
+   k-model for that many paths is feasible (completeness), the optimum lies in the searched range. *)
+From FP Require Import EndToEnd1 EndToEnd2 EndToEnd3 EndToEndExample.
+Theorem C03_minflowdecomp_end_to_end :
+  forall (V : list node) (E : list PathEnc.edge) (s t : node) (f : PathEnc.edge -> Z)
+         (Pa Sa : list (node * list node)) (topo : list node) (feasible : nat -> bool) (lb : nat) (sts : list raw),
+  NoDup V -> (forall e, In e E -> In (fst e) V /\ In (snd e) V) -> ~ In s V -> ~ In t V -> s <> t ->
+  Peel.peel_inputs_ok E Pa Sa topo = true ->
+  PeelProofs1.nonneg E f -> PeelProofs1.conserving E f ->
+  (forall k, feasible k = true <-> exists a, sat a (encode_kfd (e2e_inst V E s t f k))) ->
+  (forall i, (i < S (length E) - lb)%nat -> exists x, nth_error sts i = Some x /\
+             status_of x = if feasible (lb + i)%nat then Optimal else Infeasible) ->
+  (forall k, (k < lb)%nat -> feasible k = false) ->
+  exists kopt,
+    so_res (mpc_solve true lb (S (length E)) sts) = Solved kopt /\
+    (kopt <= Peel.npos E f)%nat /\
+    (exists P w, decomposition (e2e_inst V E s t f kopt) P w) /\
+    (forall k, (k < kopt)%nat -> ~ exists P w, decomposition (e2e_inst V E s t f k) P w).
+Proof. exact minflowdecomp_end_to_end. Qed.
+Print Assumptions C03_minflowdecomp_end_to_end.
+
+Example C03_end_to_end_premises_satisfiable :
+  NoDup xV /\ (forall e, In e xE -> In (fst e) xV /\ In (snd e) xV) /\ ~ In 0%N xV /\ ~ In 5%N xV /\ 0%N <> 5%N /\
+  Peel.peel_inputs_ok xE xPa xSa [1; 2; 3; 4]%N = true /\ PeelProofs1.nonneg xE xf /\ PeelProofs1.conserving xE xf.
+Proof. exact e2e_premises_satisfiable. Qed.
+Print Assumptions C03_end_to_end_premises_satisfiable.
